@@ -1,5 +1,5 @@
 (* C15 - Decimal128 conversions are exact within the declared precision and scale. *)
-From Verif Require Import DecimalCodec DecimalCodec_proofs.
+From Verif Require Import DecimalCodec DecimalCodec_proofs DecimalExact_proofs.
 
 (* Full-strength statement (kept visible; the parts proved so far are below, the remainder is
    evaluated as the specification oracle `RunC15.oracle` on every implementation output):
@@ -12,6 +12,12 @@ Definition C15_full : Prop :=
                 else parse_decimal128 p s t = Err
     | None => parse_decimal128 p s t = Err
     end.
+
+(* proved: for every precision up to 38, every scale and every text - the three digit-copying parsers
+   (integer only / mixed / fraction only, chosen by precision and scale), leading-zero and
+   all-digit guards, zero padding, truncation of excess fraction digits, the i128 parse *)
+Theorem C15_full_proved : C15_full.
+Proof. intros p s t Hp _. apply parse_exact. exact Hp. Qed.
 
 (* no panic: every u8 precision, every scale, every text; every i128 and every i8 scale *)
 Theorem C15_parse_no_panic : forall p s t, p <= 255 -> forall k, parse_decimal128 p s t <> Panic k.
@@ -46,6 +52,7 @@ Example C15_examples :
   format_decimal 12345 3 = Ok (b "12.345").
 Proof. vm_compute. repeat split; reflexivity. Qed.
 
+Print Assumptions C15_full_proved.
 Print Assumptions C15_parse_no_panic.
 Print Assumptions C15_format_no_panic.
 Print Assumptions C15_parse_within_precision.
